@@ -110,7 +110,8 @@ def inspect(dest: str, before: set) -> Tuple[Optional[bytes], List[str]]:
     if os.path.exists(dest):
         with open(dest, 'rb') as f:
             content = f.read()
-    new_tmps = sorted(n for n in (os.listdir(sub) if os.path.isdir(sub) else []) if n.startswith('tmp_') and n not in before)
+    # anything new beside the destination counts as a leftover, whatever the writer calls its temporary files
+    new_tmps = sorted(n for n in (os.listdir(sub) if os.path.isdir(sub) else []) if n not in before and n != os.path.basename(dest))
     return content, new_tmps
 
 
